@@ -427,8 +427,12 @@ class Pipe<StageClass::kSingleStage, CurStage, SinkPipe> {
   Pipe(ConcurrentTaskSet& tasks, StageIn&& s) : tasks_(tasks), stage_(std::forward<StageIn>(s)) {}
 
   void execute() {
-    size_t numThreads = std::min(tasks_.numPoolThreads(), StageLimits<CurStage>::limit(stage_));
-    for (size_t i = 0; i < numThreads; ++i) {
+    // At least one instance, also on a pool without threads (the task set then runs it inline), as
+    // the generator stage of a multi-stage pipeline does.
+    ssize_t numThreads = std::max<ssize_t>(
+        1, std::min(tasks_.numPoolThreads(), StageLimits<CurStage>::limit(stage_)));
+    for (ssize_t i = 0; i < numThreads; ++i) {
+
       tasks_.schedule([this]() {
         while (!tasks_.hasException() && stage_()) {
         }
